@@ -125,7 +125,7 @@ Lemma parse_program_agrees fs root pfs :
   /\ (parse_program fs root = FPanic <-> cparse_program pfs root = PPanic)
   /\ (parse_program fs root = FFuel <-> cparse_program pfs root = CompilerValidate.PFuel).
 Proof.
-  intro E. unfold parse_program, parse_program_diag. rewrite E.
+  intro E. unfold parse_program, parse_program_checked. rewrite E.
   destruct (cparse_program pfs root) as [t0|m| |]; cbn [fres_of]; repeat split; intros; try congruence;
     try discriminate; try (match goal with H : exists _, _ |- _ => destruct H; discriminate end); eauto.
 Qed.
@@ -150,7 +150,47 @@ Proof.
   intros Hd Hn. destruct (parsed_fs_some fs Hd) as [pfs E].
   pose proof (parsed_fs_names_ok fs pfs E Hn) as Hok.
   destruct (cparse_total_res pfs root Hok) as [G W].
-  unfold parse_program, parse_program_diag. rewrite E. split.
+  unfold parse_program, parse_program_checked. rewrite E. split.
+  - destruct (cparse_program pfs root) as [t0|m| |]; cbn [fres_of pres_res graceful] in *; eauto; contradiction.
+  - intros t Ht. apply W. destruct (cparse_program pfs root); cbn [fres_of] in Ht; congruence.
+Qed.
+
+(** the decidable form of the hypotheses: what the judge checks on every program it replays *)
+Lemma nonempty_true b : nonempty b = true -> b <> [].
+Proof. destruct b; [discriminate|intros _ H; discriminate]. Qed.
+
+Lemma file_names_okb_sound f : file_names_okb f = true -> file_names_ok f.
+Proof.
+  unfold file_names_okb. intro H. apply andb_true_iff in H as [H Htd]. apply andb_true_iff in H as [Hsv Hsc].
+  rewrite forallb_forall in Hsv, Hsc. split; [|split; [|exact Htd]].
+  - intros s Hs. specialize (Hsv s Hs). apply andb_true_iff in Hsv as [H1 H2]. rewrite forallb_forall in H2.
+    split; [apply nonempty_true; exact H1|intros m Hm; apply nonempty_true; exact (H2 m Hm)].
+  - intros s Hs. specialize (Hsc s Hs). apply andb_true_iff in Hsc as [H1 H2]. rewrite forallb_forall in H2.
+    split; [apply nonempty_true; exact H1|intros o Ho; apply nonempty_true; exact (H2 o Ho)].
+Qed.
+
+Lemma pfs_names_okb_sound pfs : pfs_names_okb pfs = true -> fs_names_ok pfs.
+Proof.
+  unfold pfs_names_okb. rewrite forallb_forall. intros H p f Hin.
+  apply file_names_okb_sound. exact (H (p, FParsed f) Hin).
+Qed.
+
+Lemma parse_program_checked_spec fs root :
+  parse_program fs root = match parse_program_checked fs root with Some (_, r) => fres_of r | None => FFuel end.
+Proof. reflexivity. Qed.
+
+(** a program on which the check says yes: a tree or an error, and an accepted tree is validated
+    all the way down *)
+Lemma parse_program_checked_total fs root r :
+  parse_program_checked fs root = Some (true, r) ->
+  parse_program fs root = fres_of r
+  /\ ((exists t, parse_program fs root = FOk t) \/ parse_program fs root = FErr)
+  /\ forall t, parse_program fs root = FOk t -> CompilerTotalProofs.wellvalidated (reduce_tree t).
+Proof.
+  unfold parse_program, parse_program_checked. destruct (parsed_fs fs) as [pfs|]; [|discriminate].
+  intro H. inversion H as [[Hn Hr]]. clear H.
+  destruct (cparse_total_res pfs root (pfs_names_okb_sound pfs Hn)) as [G W].
+  split; [reflexivity|]. split.
   - destruct (cparse_program pfs root) as [t0|m| |]; cbn [fres_of pres_res graceful] in *; eauto; contradiction.
   - intros t Ht. apply W. destruct (cparse_program pfs root); cbn [fres_of] in Ht; congruence.
 Qed.
